@@ -876,6 +876,88 @@ def _compare(res, what, inp, r_, m_, unordered, discrepancy):
     discrepancy(what, inp, {k: r_[k] for k in r_ if k in ("ok", "err", "msg")}, m_)
 
 
+# ---- a structured SOURCE whose class has class variables / init-only variables: only its instance fields are its members
+PSEUDO_SRC = """
+import dataclasses, datetime, typing
+@dataclasses.dataclass
+class LegacyUser:
+    kind: typing.ClassVar[str] = "legacy"
+    id: int = 0
+    name: str = ""
+    joined: datetime.date = datetime.date(2020, 2, 3)
+    token: dataclasses.InitVar[str] = "t"
+    def __post_init__(self, token):
+        pass
+@dataclasses.dataclass
+class User:
+    id: int
+    name: str
+    joined: datetime.date
+    kind: str = "user"
+    token: str = "none"
+@dataclasses.dataclass
+class Team:
+    lead: User
+    members: typing.List[User]
+    by_name: typing.Dict[str, User]
+    pair: typing.Tuple[User, int]
+class PlainLegacy:
+    kind: typing.ClassVar[str] = "legacy"
+    id: int
+    name: str
+    def __init__(self, id, name):
+        self.id, self.name = id, name
+"""
+
+
+def _pseudo_child(_job):
+    import sys
+    import types
+    import datetime
+    warnings.simplefilter("ignore")
+    import typelib
+    mod = types.ModuleType("vm_c05_pseudo")
+    sys.modules["vm_c05_pseudo"] = mod
+    ns = mod.__dict__
+    exec(PSEUDO_SRC, ns)
+    LU, U, T, PL = ns["LegacyUser"], ns["User"], ns["Team"], ns["PlainLegacy"]
+    inst = LU(1, "ada", datetime.date(2020, 2, 3))
+    mapping = {"id": 1, "name": "ada", "joined": datetime.date(2020, 2, 3)}
+    pinst, pmap = PL(2, "bob"), {"id": 2, "name": "bob"}
+    bad = []
+
+    def same(label, f_inst, f_map):
+        def run(f):
+            try:
+                return ("ok", repr(f()))
+            except Exception as e:  # noqa: BLE001
+                return ("err", type(e).__name__)
+        a, b = run(f_inst), run(f_map)
+        if a != b:
+            bad.append([label, f"from the instance: {a[1][:160]}", f"from the equal mapping: {b[1][:160]}"])
+    same("unmarshal(User, <LegacyUser instance>)", lambda: typelib.unmarshal(U, inst), lambda: typelib.unmarshal(U, mapping))
+    same("unmarshal(dict[str, str], <instance>)", lambda: typelib.unmarshal(typing.Dict[str, str], inst), lambda: typelib.unmarshal(typing.Dict[str, str], mapping))
+    same("unmarshal(list[str], <instance>)", lambda: typelib.unmarshal(typing.List[str], inst), lambda: typelib.unmarshal(typing.List[str], list(mapping.values())))
+    same("marshal(<instance>, t=dict[str, str])", lambda: typelib.marshal(inst, t=typing.Dict[str, str]), lambda: typelib.marshal(mapping, t=typing.Dict[str, str]))
+    same("unmarshal(Team, members given as instances)",
+         lambda: typelib.unmarshal(T, {"lead": inst, "members": [inst], "by_name": {"a": inst}, "pair": [inst, "3"]}),
+         lambda: typelib.unmarshal(T, {"lead": mapping, "members": [mapping], "by_name": {"a": mapping}, "pair": [mapping, "3"]}))
+    same("unmarshal(User-like dict[str, str], <plain annotated instance with a ClassVar>)",
+         lambda: typelib.unmarshal(typing.Dict[str, str], pinst), lambda: typelib.unmarshal(typing.Dict[str, str], pmap))
+    return bad
+
+
+def pseudo_field_sources(res):
+    bad = iso.map_isolated(_pseudo_child, [None], timeout=60.0)[0]
+    if not isinstance(bad, list):
+        raise RuntimeError(f"harness: pseudo-field source probe failed: {bad}")
+    res.case({"family": "source-with-classvar-and-initvar"}, True)
+    for label, a, b in bad:
+        res.failures.append({"what": f"{label} converts differently from the equal mapping: {a}; {b}", "input": {"pseudo_source": label}})
+    if not bad:
+        res.count("oracle:source-class-variables-are-not-members", 6)
+
+
 def explore(ctx):
     res = Result()
     res.rule = RULE
@@ -892,6 +974,7 @@ def explore(ctx):
         done += k
     res.extra["trees_validated"] = res.programs
     res.extra["module_sets"] = n
+    pseudo_field_sources(res)
     return res
 
 
@@ -917,6 +1000,10 @@ def witness(fid):
 
 def replay(failure):
     inp = failure["input"]
+    if "pseudo_source" in inp:
+        bad = iso.map_isolated(_pseudo_child, [None], timeout=60.0)[0]
+        print(json.dumps({"sources converting differently from the equal mapping": bad}, indent=1))
+        return bool(bad)
     cases = [inp["case"]] if "case" in inp else []
     job = {"prog": inp["prog"], "root": inp["root"], "cases": cases,
            "conflict": union_order_conflict(inp["prog"], [inp["root"]])}
